@@ -1161,10 +1161,9 @@ func worker(sh *ev.Shard, prop string) {
 }
 
 func wantRuntime(rt corpus.Runtime, thorough bool) bool {
-	if thorough {
-		return true
-	}
-	return rt == corpus.Gogo || rt == corpus.GV2
+	// all four flavours in both tiers (the quick tier used to take gogo and gv2 only; the legacy and gv1 flavours share
+	// the templates with them but not the runtime underneath, and the corpus is small enough)
+	return true
 }
 
 // Pre, if set, runs in the parent process before the corpus shards (property-specific extra clauses).
